@@ -145,6 +145,9 @@ func labelSel(m map[string]string) *metav1.LabelSelector {
 	// the reserved key "_expr" carries match expressions: "k notin v1|v2", "k in v1|v2", "!k", "k"
 	ls := &metav1.LabelSelector{}
 	for k, v := range m {
+		if k == "_replicas" {
+			continue
+		}
 		if k != "_expr" {
 			if ls.MatchLabels == nil {
 				ls.MatchLabels = map[string]string{}
@@ -171,16 +174,31 @@ func labelSel(m map[string]string) *metav1.LabelSelector {
 
 // plainSel drops the match-expression carrier (kinds whose selector is a plain map).
 func plainSel(m map[string]string) map[string]string {
-	if _, ok := m["_expr"]; !ok {
+	_, e := m["_expr"]
+	_, r := m["_replicas"]
+	if !e && !r {
 		return copyMap(m)
 	}
 	out := map[string]string{}
 	for k, v := range m {
-		if k != "_expr" {
+		if k != "_expr" && k != "_replicas" {
 			out[k] = v
 		}
 	}
 	return out
+}
+
+// replicasOf: the reserved selector key "_replicas" carries spec.replicas /
+// spec.parallelism (a workload scaled to zero is still a source object, and
+// its selector still selects)
+func replicasOf(m map[string]string) *int32 {
+	v, ok := m["_replicas"]
+	if !ok {
+		return nil
+	}
+	n, _ := strconv.Atoi(v)
+	r := int32(n)
+	return &r
 }
 
 // SelectsPod is the harness' own statement of the joins' selection rule for
@@ -238,17 +256,17 @@ func Build(kind string, s Spec) runtime.Object {
 	case "event":
 		return &corev1.Event{ObjectMeta: om}
 	case "replicationcontroller":
-		return &corev1.ReplicationController{ObjectMeta: om, Spec: corev1.ReplicationControllerSpec{Selector: plainSel(s.Sel), Template: &tmpl}}
+		return &corev1.ReplicationController{ObjectMeta: om, Spec: corev1.ReplicationControllerSpec{Replicas: replicasOf(s.Sel), Selector: plainSel(s.Sel), Template: &tmpl}}
 	case "replicaset":
-		return &appsv1.ReplicaSet{ObjectMeta: om, Spec: appsv1.ReplicaSetSpec{Selector: labelSel(s.Sel), Template: tmpl}}
+		return &appsv1.ReplicaSet{ObjectMeta: om, Spec: appsv1.ReplicaSetSpec{Replicas: replicasOf(s.Sel), Selector: labelSel(s.Sel), Template: tmpl}}
 	case "deployment":
-		return &appsv1.Deployment{ObjectMeta: om, Spec: appsv1.DeploymentSpec{Selector: labelSel(s.Sel), Template: tmpl}}
+		return &appsv1.Deployment{ObjectMeta: om, Spec: appsv1.DeploymentSpec{Replicas: replicasOf(s.Sel), Selector: labelSel(s.Sel), Template: tmpl}}
 	case "daemonset":
 		return &appsv1.DaemonSet{ObjectMeta: om, Spec: appsv1.DaemonSetSpec{Selector: labelSel(s.Sel), Template: tmpl}}
 	case "statefulset":
-		return &appsv1.StatefulSet{ObjectMeta: om, Spec: appsv1.StatefulSetSpec{Selector: labelSel(s.Sel), Template: tmpl}}
+		return &appsv1.StatefulSet{ObjectMeta: om, Spec: appsv1.StatefulSetSpec{Replicas: replicasOf(s.Sel), Selector: labelSel(s.Sel), Template: tmpl}}
 	case "job":
-		return &batchv1.Job{ObjectMeta: om, Spec: batchv1.JobSpec{Selector: labelSel(s.Sel), Template: tmpl}}
+		return &batchv1.Job{ObjectMeta: om, Spec: batchv1.JobSpec{Parallelism: replicasOf(s.Sel), Selector: labelSel(s.Sel), Template: tmpl}}
 	case "ingress":
 		ing := &netv1beta1.Ingress{ObjectMeta: om}
 		var paths []netv1beta1.HTTPIngressPath
